@@ -21,6 +21,9 @@ CHECKS = {
  "C09": dict(cat="model_checking", tech="exhaustive per-state item-pair check on every compiled automaton; `||` vs `|` product automaton (levels erased)",
    text="Every state of every compiled automaton (main and within-word) of the collision-forcing and general families is visited and every pair of outgoing items examined: equal literal text, or within-word automata with equal word languages (decided by canonical minimal forms), must share the target. The `||` grammar and its `|` rewrite are compared by a complete product with levels erased. Bash-level differential traces are part of C01/C12 machinery.",
    note="trusted: canonical-form language equality of within-word automata; known finding subword-two-readings listed in known-findings.txt", ref="4/C09"),
+ "C10": dict(cat="exploration", tech="controlled-nondeterminism sweep: LD_PRELOAD getrandom shim owning the hash seed x ASLR x environment x cwd/stdin matrix on the real binary; exhaustive in-process compile histories in fresh worker processes",
+   text="The hidden inputs of a process (hash seed via getrandom, address-space layout, environment, cwd, stdin vs path, what the process compiled before) are owned by the harness and swept; script, --dfa and --regex bytes for every corpus and synthetic wide grammar and every shell must equal the reference run in every configuration, every file must hash identically in every in-process history, and in-process results must equal a fresh process's.",
+   note="a sweep, not an enumeration, of the seed space (level: exploration); trusted: the shim intercepts the only seed source (evidence reports whether the binary asked for randomness)", ref="4/C10"),
  "C11": dict(cat="exploration", tech="exhaustive enumeration of definition subsets x names x reference sites x targets, product equivalence against the reference + script text observation",
    text="All 3x16 definition sets (plain none/command/expression x every subset of the four @shell definitions) for X, PATH, DIRECTORY at 6 reference sites and 4 targets are compiled; the automaton must equal the reference (which encodes the R1 choice order), the emitted script must contain exactly the chosen probe text, and removing other-shell definitions must not change a byte.",
    note="trusted: reference semantics R1; built-in completer texts copied into the harness", ref="4/C11"),
